@@ -1,4 +1,6 @@
-/* C01 driver: stdin lines "<seed> <entry LP|LM|LF|LC> <path>".  For each: the matching test entry point, then the load; on
+/* C01 driver: stdin lines "<seed> <entry LP|LM|LF|LC> <path>", or "<seed> TY <path>" (prints the detected format only), or
+ * "<seed> SW:<off>=<val>,<off>=<val>... <path>" (boundary sweep: the file is read into memory, the listed bytes are replaced, then
+ * test + load from memory and a short fixed history that visits every order with set_position / next / prev; no dump).  For each: the matching test entry point, then the load; on
  * success the module dump (harness/vdump.h) and a seeded history of playback and position-control calls under a seeded
  * output configuration, then release.  Built once with ASan+UBSan and once with MSan: any report aborts the process
  * (exit code 86 / MSan's), the harness then knows the offending line from the number of "DONE" lines printed.
@@ -17,13 +19,45 @@ int main(void)
 {
 	static char line[8192];
 	while (fgets(line, sizeof line, stdin)) {
-		char e[8], path[4096]; unsigned int seed; int ret = -99, tret; long sz = 0; unsigned char *buf = NULL; FILE *f = NULL;
+		char e[256], path[4096]; unsigned int seed; int ret = -99, tret; long sz = 0; unsigned char *buf = NULL; FILE *f = NULL;
 		struct xmp_callbacks cb = { cb_read, cb_seek, cb_tell, NULL }; struct xmp_test_info ti; xmp_context c;
 		line[strcspn(line, "\n")] = 0;
-		if (sscanf(line, "%u %7s %4095[^\n]", &seed, e, path) != 3) continue;
+		if (sscanf(line, "%u %255s %4095[^\n]", &seed, e, path) != 3) continue;
 		rs = seed;
 		memset(&ti, 0, sizeof ti);
+		if (!strcmp(e, "TY")) { int r = xmp_test_module(path, &ti); printf("TYPE %d %s\n", r, r == 0 ? ti.type : "-"); puts("DONE"); fflush(stdout); continue; }
 		c = xmp_create_context();
+		if (!strncmp(e, "SW:", 3)) {
+			char *q = e + 3; int loaded = 0;
+			buf = vf_read_file(path, &sz);
+			while (buf && *q) { long off = strtol(q, &q, 10); int val = 0; if (*q == '=') val = (int)strtol(q + 1, &q, 10); if (off >= 0 && off < sz) buf[off] = (unsigned char)val; if (*q == ',') q++; else break; }
+			tret = buf ? xmp_test_module_from_memory(buf, sz, &ti) : -1;
+			ret = buf ? xmp_load_module_from_memory(c, buf, sz) : -1;
+			printf("RET %d %d %d\n", tret, ret, (int)strlen(ti.name) + (int)strlen(ti.type));
+			if (ret == 0) {
+				struct xmp_module_info mi; struct xmp_frame_info fi; int i, j;
+				xmp_get_module_info(c, &mi);
+				libxmp_set_random(&((struct context_data *)c)->rng, seed);
+				if (xmp_start_player(c, 8000 + 4000 * (int)(seed % 3), (seed & 8) ? XMP_FORMAT_MONO : 0) == 0) {
+					loaded = 1;
+					for (i = 0; i < mi.mod->len && i < 24; i++) {
+						xmp_set_position(c, i);
+						for (j = 0; j < 2; j++) { if (xmp_play_frame(c) != 0) break; xmp_get_frame_info(c, &fi); }
+					}
+					for (i = 0; i < 6; i++) { if (i & 1) xmp_next_position(c); else xmp_prev_position(c); if (i == 3) xmp_prev_position(c); xmp_play_frame(c); xmp_get_frame_info(c, &fi); }
+					xmp_seek_time(c, (int)(seed % 50000)); xmp_play_frame(c);
+					xmp_set_row(c, (int)(seed % 64)); xmp_play_frame(c);
+					xmp_restart_module(c);
+					for (i = 0; i < 12; i++) { if (xmp_play_frame(c) != 0) break; xmp_get_frame_info(c, &fi); }
+					xmp_end_player(c);
+				}
+				xmp_release_module(c);
+			}
+			(void)loaded;
+			xmp_free_context(c); free(buf);
+			puts("DONE"); fflush(stdout);
+			continue;
+		}
 		if (e[1] == 'M') buf = vf_read_file(path, &sz);
 		if (e[1] == 'F' || e[1] == 'C') f = fopen(path, "rb");
 		if (e[1] == 'P') tret = xmp_test_module(path, &ti);
